@@ -35,6 +35,44 @@ type purity struct {
 	pkg   string
 	reach map[*ssa.Function]bool
 	memo  map[ssa.Value]int // 1 fresh, 2 not fresh
+	sl    *Slicer
+	asVal map[*ssa.Function]bool
+}
+
+// usedAsValue: g appears as an operand other than the callee of a call (stored, passed, bound).
+func (p *purity) usedAsValue(g *ssa.Function) bool {
+	if p.asVal == nil {
+		p.asVal = map[*ssa.Function]bool{}
+		for _, fn := range p.sl.fns {
+			for _, in := range instrsOf(fn) {
+				var callee ssa.Value
+				if ci, ok := in.(ssa.CallInstruction); ok {
+					callee = ci.Common().Value
+					for _, a := range ci.Common().Args {
+						if f, isF := a.(*ssa.Function); isF {
+							p.asVal[f] = true
+						}
+					}
+				}
+				for _, op := range in.Operands(nil) {
+					if op == nil || *op == nil {
+						continue
+					}
+					if f, isF := (*op).(*ssa.Function); isF && ssa.Value(f) != callee {
+						p.asVal[f] = true
+					}
+				}
+				if mc, ok := in.(*ssa.MakeClosure); ok {
+					if _, mo, isB := boundMethod(mc); isB {
+						if f := p.m.Prog.FuncValue(mo); f != nil {
+							p.asVal[f] = true
+						}
+					}
+				}
+			}
+		}
+	}
+	return p.asVal[g]
 }
 
 // reachFrom: own-package functions reachable through static calls and closures.
@@ -140,6 +178,24 @@ func (p *purity) fresh(v ssa.Value, depth int) (bool, string) {
 		}
 		return false, "loaded from memory"
 	case *ssa.Parameter:
+		// an accumulator handed to an unexported helper (`addScaled(acc, points, scalars)`): ownership is
+		// the callers' — the object is fresh here when every call passes a fresh one
+		if g := x.Parent(); p.sl != nil && g.Object() != nil && !g.Object().Exported() && g.Parent() == nil && !p.usedAsValue(g) {
+			cs := p.sl.callers[g]
+			idx := paramIndex(x)
+			if len(cs) > 0 && idx >= 0 {
+				for _, c := range cs {
+					args := c.Common().Args
+					if _, isCall := c.(*ssa.Call); !isCall || idx >= len(args) {
+						return false, "parameter " + x.Name()
+					}
+					if ok, why := p.fresh(args[idx], depth+1); !ok {
+						return false, "parameter " + x.Name() + " (" + FuncName(c.Parent()) + " passes " + why + ")"
+					}
+				}
+				return true, ""
+			}
+		}
 		return false, "parameter " + x.Name()
 	case *ssa.FreeVar:
 		return false, "captured variable " + x.Name()
@@ -179,7 +235,7 @@ func checkC09(c *Ctx) {
 			}
 		}
 		reach := reachFrom(m, b.pkg, entries)
-		p := &purity{m: m, pkg: b.pkg, reach: reach}
+		p := &purity{m: m, pkg: b.pkg, reach: reach, sl: NewSlicer(m, b.pkg)}
 		var fns []*ssa.Function
 		for f := range reach {
 			fns = append(fns, f)
@@ -254,6 +310,19 @@ func checkC09(c *Ctx) {
 							if pp, isP := strip(a.X).(*ssa.Parameter); isP && pp.Parent() == cs.Parent() {
 								// accept if the caller is also only called with locals (checked when its own stores are visited)
 								fresh = true
+							}
+						}
+						// a slice the caller made just before and stored in the object it is filling itself:
+						// `bs.a = make([]*G1, n); fill(bs.a, raw)`
+						if ld, isLd := arg.(*ssa.UnOp); isLd && ld.Op == token.MUL && !fresh {
+							if fa, isFA := ld.X.(*ssa.FieldAddr); isFA {
+								for _, st := range storesToField([]*ssa.Function{cs.Parent()}, fieldOfAddr(fa)) {
+									sfa, _ := st.Addr.(*ssa.FieldAddr)
+									_, isMake := strip(st.Val).(*ssa.MakeSlice)
+									if sfa != nil && isMake && sameObject(sfa.X, fa.X) && instrDominates(st, cs.(ssa.Instruction)) {
+										fresh = true
+									}
+								}
 							}
 						}
 						if !fresh {
@@ -435,7 +504,10 @@ func checkC09PS(c *Ctx, m *Module, sl *Slicer) {
 		var verifyCall *ssa.Call
 		for _, in := range instrsOf(sbs) {
 			if cl, ok := in.(*ssa.Call); ok {
-				if cal := staticCallee(&cl.Call); cal != nil && cal.Name() == "Verify" && isNamed(cal.Signature.Recv().Type(), PkgPS, "BlindCorrectFormProof") {
+				// (the checking method of the request's proof object: exported Verify or the unexported
+				// method it wraps — a method of the proof type with a single error result)
+				if cal := staticCallee(&cl.Call); cal != nil && cal.Signature.Recv() != nil && isNamed(cal.Signature.Recv().Type(), PkgPS, "BlindCorrectFormProof") &&
+					cal.Signature.Results().Len() == 1 && types.Identical(cal.Signature.Results().At(0).Type(), types.Universe.Lookup("error").Type()) {
 					verifyCall = cl
 				}
 			}
@@ -483,6 +555,7 @@ func checkC09PS(c *Ctx, m *Module, sl *Slicer) {
 			}
 		}
 	}
+	ruleC09ElementWise(c, m, sl)
 	// ---------------------------------------------------------------- V1
 	// The Fiat–Shamir oracles are found by what they do — a function of package ps that takes several
 	// group elements and whose result is (or is turned by its callers into) a HashToZr challenge —
@@ -591,8 +664,14 @@ func checkC09PS(c *Ctx, m *Module, sl *Slicer) {
 		nGroup := 0
 		ops := oracleOperands(fn)
 		for k, op := range ops {
-			if o.name == "randomOracleForBlindingProof" && k == len(ops)-1 {
-				if _, isSlice := op.typ().Underlying().(*types.Slice); isSlice {
+			{
+				// the frozen exclusion: gs, the locally derived bases — the last operand of the recorded
+				// blinding oracle, or the operand of that name when the operands travel in a statement object
+				leaf := op.name()
+				if i := strings.LastIndex(leaf, "."); i >= 0 {
+					leaf = leaf[i+1:]
+				}
+				if _, isSlice := op.typ().Underlying().(*types.Slice); isSlice && ((o.name == "randomOracleForBlindingProof" && k == len(ops)-1) || leaf == "gs") {
 					continue
 				}
 			}
@@ -632,7 +711,12 @@ func checkC09PS(c *Ctx, m *Module, sl *Slicer) {
 					continue
 				}
 				// a parameter object built at the call: its group-element fields are the operands
-				if st, isS := sa.Type().Underlying().(*types.Struct); isS && !isGroup(sa.Type()) {
+				var st *types.Struct
+				isS := false
+				if n := namedOf(sa.Type()); n != nil && !isGroup(sa.Type()) && n.Obj().Pkg() != nil && n.Obj().Pkg().Path() == PkgPS {
+					st, isS = n.Underlying().(*types.Struct)
+				}
+				if isS {
 					for i := 0; i < st.NumFields(); i++ {
 						if !isGroup(st.Field(i).Type()) {
 							continue
@@ -908,7 +992,7 @@ func oracleOperands(fn *ssa.Function) []oracleOperand {
 		if isGroupType(p.Type()) {
 			continue
 		}
-		if st, ok := p.Type().Underlying().(*types.Struct); ok && namedOf(p.Type()) != nil && namedOf(p.Type()).Obj().Pkg() == fn.Pkg.Pkg {
+		if st, ok := ownStructOf(p.Type(), fn); ok {
 			for i := 0; i < st.NumFields(); i++ {
 				if isGroupType(st.Field(i).Type()) {
 					flat = false
@@ -925,8 +1009,8 @@ func oracleOperands(fn *ssa.Function) []oracleOperand {
 			out = append(out, oracleOperand{p: p, shift: sh})
 			continue
 		}
-		st, ok := p.Type().Underlying().(*types.Struct)
-		if !ok || namedOf(p.Type()) == nil || namedOf(p.Type()).Obj().Pkg() != fn.Pkg.Pkg {
+		st, ok := ownStructOf(p.Type(), fn)
+		if !ok {
 			continue
 		}
 		for k := 0; k < st.NumFields(); k++ {
@@ -936,4 +1020,248 @@ func oracleOperands(fn *ssa.Function) []oracleOperand {
 		}
 	}
 	return out
+}
+
+// ownStructOf: t is a struct type of fn's package, or a pointer to one (a statement object passed by
+// value or by pointer, also as the receiver of the oracle).
+func ownStructOf(t types.Type, fn *ssa.Function) (*types.Struct, bool) {
+	n := namedOf(t) // looks through one pointer
+	if n == nil || fn.Pkg == nil || n.Obj().Pkg() != fn.Pkg.Pkg || isGroupType(t) {
+		return nil, false
+	}
+	st, ok := n.Underlying().(*types.Struct)
+	return st, ok
+}
+
+// ruleC09ElementWise (C09.E1): the well-formedness proof of a blinded signing request binds every
+// ciphertext component on its own.  For each vector-valued field of the request that is handed to the
+// proof's verification (the ElGamal components a_i, b_i), some verification equation — an Equals whose
+// failing arm returns an error — reads an element of that vector and is evaluated once per index (it
+// sits in a loop, or in a step that is only called from inside a loop).  An equation over a sum or
+// product of all elements accepts a request in which one component was shifted by Δ and another by −Δ:
+// the signer then signs a malformed ciphertext.  Decides the shape (per-index check present), not the
+// algebra of the equation.
+func ruleC09ElementWise(c *Ctx, m *Module, sl *Slicer) {
+	const E1 = "C09.E1"
+	c.Rule(E1, "every ciphertext vector of a blinded request is checked element by element by the request proof", 2)
+	req := m.LookupType(PkgPS, "BlindSignature")
+	sbs := m.Func(PkgPS, "", "SignBlindSignature")
+	if req == nil || sbs == nil {
+		c.Unk(E1, "mpc/ps", "request type and signing function", "-", "BlindSignature / SignBlindSignature not found")
+		return
+	}
+	st, ok := req.Underlying().(*types.Struct)
+	if !ok {
+		return
+	}
+	// the verification entry: the method of the request's proof object whose error result SignBlindSignature tests
+	var verify *ssa.Function
+	var verifyCall *ssa.Call
+	for _, in := range instrsDeep(sbs) {
+		cl, ok := in.(*ssa.Call)
+		if !ok {
+			continue
+		}
+		cal := staticCallee(&cl.Call)
+		if cal == nil || cal.Signature.Recv() == nil || pkgPathOf(cal) != PkgPS || cal.Signature.Results().Len() != 1 {
+			continue
+		}
+		if !types.Identical(cal.Signature.Results().At(0).Type(), types.Universe.Lookup("error").Type()) {
+			continue
+		}
+		// its receiver is a field of the request
+		if fa, isFA := strip(cl.Call.Args[0]).(*ssa.FieldAddr); isFA {
+			owner := false
+			for i := 0; i < st.NumFields(); i++ {
+				if st.Field(i) == fieldOfAddr(fa) {
+					owner = true
+				}
+			}
+			if owner {
+				verify, verifyCall = cal, cl
+			}
+		}
+	}
+	if verify == nil {
+		c.Unk(E1, FuncName(sbs), "request proof verification", m.Pos(sbs.Pos()), "no call of a checking method of the request's proof object found")
+		return
+	}
+	// vector fields of the request handed to it
+	var vecs []*types.Var
+	for i := 0; i < st.NumFields(); i++ {
+		f := st.Field(i)
+		if _, isSl := f.Type().Underlying().(*types.Slice); !isSl {
+			continue
+		}
+		handed := false
+		for _, a := range verifyCall.Call.Args[1:] {
+			if sliceHasFieldLoad(sl.Slice(a), f) {
+				handed = true
+			}
+		}
+		if handed {
+			vecs = append(vecs, f)
+		}
+	}
+	if len(vecs) == 0 {
+		c.Unk(E1, FuncName(sbs), "request vectors", m.Pos(verifyCall.Pos()), "no vector-valued field of the request is handed to the proof verification")
+		return
+	}
+	// the verification's code
+	seen := map[*ssa.Function]bool{}
+	var closure []*ssa.Function
+	var walk func(f *ssa.Function, d int)
+	walk = func(f *ssa.Function, d int) {
+		if f == nil || seen[f] || f.Blocks == nil || pkgPathOf(f) != PkgPS || d > 3 {
+			return
+		}
+		seen[f] = true
+		closure = append(closure, f)
+		c.Analysed(FuncName(f))
+		for _, in := range instrsOf(f) {
+			if ci, ok := in.(ssa.CallInstruction); ok {
+				walk(staticCallee(ci.Common()), d+1)
+			}
+		}
+	}
+	walk(verify, 0)
+	inCycle := func(in ssa.Instruction) bool {
+		b := in.Block()
+		for _, s := range b.Succs {
+			if reachableBlocks(s)[b] {
+				return true
+			}
+		}
+		return false
+	}
+	perIndex := func(e *ssa.Call) bool {
+		if inCycle(e) {
+			return true
+		}
+		// a per-index step: every call of the function that holds the equation is inside a loop
+		cs := staticCallsTo(closure, e.Parent())
+		if len(cs) == 0 {
+			return false
+		}
+		for _, c := range cs {
+			if !inCycle(c.(ssa.Instruction)) {
+				return false
+			}
+		}
+		return true
+	}
+	type eq struct {
+		call *ssa.Call
+		sl   map[ssa.Value]bool
+	}
+	// what an equation reads: not what its challenge was hashed from (the challenge depends on every
+	// component; that does not make the equation a check of each of them)
+	sl.Stop = func(v ssa.Value) bool {
+		cl, ok := v.(*ssa.Call)
+		if !ok {
+			return false
+		}
+		if cl.Call.IsInvoke() {
+			return cl.Call.Method.Name() == "HashToZr"
+		}
+		o := calleeObj(&cl.Call)
+		return o != nil && o.Name() == "HashToZr"
+	}
+	defer func() { sl.Stop = nil }()
+	var eqs []eq
+	for _, f := range closure {
+		for _, in := range instrsOf(f) {
+			cl, ok := in.(*ssa.Call)
+			if !ok || len(cl.Call.Args) != 2 {
+				continue
+			}
+			cal := staticCallee(&cl.Call)
+			if cal == nil || cal.Name() != "Equals" || pkgPathOf(cal) != PkgMathlib {
+				continue
+			}
+			if ok, _ := rejectsOnFalse(cl); !ok {
+				continue
+			}
+			s := sl.Slice(cl.Call.Args[0])
+			for v := range sl.Slice(cl.Call.Args[1]) {
+				s[v] = true
+			}
+			eqs = append(eqs, eq{cl, s})
+		}
+	}
+	if len(eqs) == 0 {
+		c.Bad(E1, FuncName(verify), "verification equations", m.Pos(verify.Pos()), "the proof verification contains no equation whose failure is reported")
+		return
+	}
+	for _, f := range vecs {
+		okF := false
+		where := ""
+		for _, e := range eqs {
+			if !perIndex(e.call) {
+				continue
+			}
+			for v := range e.sl {
+				var base ssa.Value
+				switch x := v.(type) {
+				case *ssa.IndexAddr:
+					base = x.X
+				case *ssa.Index:
+					base = x.X
+				}
+				if base == nil {
+					continue
+				}
+				if sliceHasFieldLoad(sl.Slice(base), f) {
+					okF = true
+					where = m.Pos(e.call.Pos())
+				}
+			}
+		}
+		c.Check(okF, E1, FuncName(verify), "request vector "+f.Name()+" checked per element", m.Pos(verify.Pos()),
+			"an equation that reads "+f.Name()+"[i] is evaluated for every index and its failure is returned ("+where+")",
+			"no verification equation reads the elements of the request's "+f.Name()+" one index at a time: an equation over their sum/product accepts a request in which two components were shifted by Δ and −Δ, so a malformed ciphertext is signed (and the signer's answer leaks Δ^(y_i−y_j))")
+	}
+}
+
+// rejectsOnFalse: the boolean result of cl is branched on and the arm taken when it is false returns a
+// non-nil error (directly in that arm's block).
+func rejectsOnFalse(cl *ssa.Call) (bool, string) {
+	if cl.Referrers() == nil {
+		return false, "result unused"
+	}
+	for _, r := range *cl.Referrers() {
+		var iff *ssa.If
+		neg := false
+		switch x := r.(type) {
+		case *ssa.If:
+			iff = x
+		case *ssa.UnOp:
+			if x.Op == token.NOT && x.Referrers() != nil {
+				for _, q := range *x.Referrers() {
+					if i2, ok := q.(*ssa.If); ok {
+						iff, neg = i2, true
+					}
+				}
+			}
+		}
+		if iff == nil {
+			continue
+		}
+		b := iff.Block()
+		falseArm := b.Succs[1]
+		if neg {
+			falseArm = b.Succs[0]
+		}
+		for blk := range reachableBlocks(falseArm) {
+			if blk != falseArm && !falseArm.Dominates(blk) {
+				continue
+			}
+			if ret, ok := blk.Instrs[len(blk.Instrs)-1].(*ssa.Return); ok && len(ret.Results) > 0 {
+				if !isNilConst(retResult(ret, len(ret.Results)-1)) {
+					return true, ""
+				}
+			}
+		}
+	}
+	return false, "no rejecting arm"
 }
